@@ -1066,6 +1066,9 @@ impl Model {
             Some("unstable-combined-ruleset") => {
                 let Some(name) = args.first().and_then(|x| x.as_atom()) else { return fail("Parse") };
                 let members: Vec<String> = args[1..].iter().filter_map(|x| x.as_atom().map(|s| s.to_string())).collect();
+                if members.iter().any(|r| !self.rulesets.contains_key(r) && !self.combined.contains_key(r)) {
+                    return fail("NoSuchRuleset");
+                }
                 self.combined.insert(name.to_string(), members);
                 Ok(vec![])
             }
